@@ -7,24 +7,23 @@
     history of connectBlock / setState / comparePopScore (any scorer) is quiet, and in a quiet state EXACTLY the blocks
     root..tip are flagged applied (C02_reachable_quiet; counting argument over the as-coded counter).
 
-    PROVED, for all trees / payload assignments / failing positions (n,k) / scorers / histories:
+    PROVED, for all trees / payload assignments / failing positions (n,k) / scorers / histories - no _partial left:
       * CommandGroup::execute and applyBlock are atomic (exact equality of P), unExecute / unapplyBlock exact inverses;
-      * setState, COMPLETE: C02_setState_never_aborts (for every known target - valid, failing at any position, already
-        invalid, ahead, behind, on a fork - the call returns true or false, no assert is reachable);
-        C02_setState_atomic (true => target is tip, exactly root..target applied; false => tip, counter and the
-        applied flag of EVERY block unchanged); C02_setState_failure_unchanged (and P unchanged as a multiset);
-        C02_setState_marks (nothing but validity marks changes, and only on the target branch: levels raised only on
-        ancestors-or-self of the target, FAILED_POP only there, FAILED_CHILD only on proper descendants of a block of
-        the branch that got FAILED_POP; nothing cleared or lowered);
-      * comparePopScore: C02_compare_atomic_partial (result >= 0 => tip, counter, applied flags of every block and P
-        unchanged; result < 0 => the candidate is the tip and exactly root..candidate is applied), C02_compare_marks
-        (marks only on the candidate branch), C02_compare_canonical (P = bootstrap + effects of the applied blocks).
-    GAP (why the compare theorem carries _partial): that comparePopScore itself reaches no assert (Abort outcome) from
-      reachable states is not proved (it needs the two-applied-chains analogue of the single-chain lemmas of
-      Pop/SmAbort.v). Covered by the direct oracle on the implementation (an assert aborts the harness and is reported
-      with the history) and by the step-by-step correspondence with the model. *)
+      * never an assert: C02_setState_never_aborts, C02_compare_never_aborts, C02_connect_never_aborts - from every
+        reachable state, for every known target / candidate (valid, failing at any position - next to the active chain
+        or alone -, already invalid, ahead, behind, on a fork, unknown) the call returns a verdict, never Abort;
+      * C02_setState_atomic: true => target is tip, exactly root..target applied; false => tip, counter and the
+        applied flag of EVERY block unchanged; C02_setState_failure_unchanged: and P unchanged as a multiset;
+      * C02_compare_atomic: result >= 0 => tip, counter, applied flags of every block and P (multiset) unchanged;
+        result < 0 => the candidate is the tip and exactly root..candidate is applied;
+      * C02_setState_marks / C02_compare_marks: nothing but validity marks changes, and only on the target / candidate
+        branch (levels raised only on ancestors-or-self of the target, FAILED_POP only there, FAILED_CHILD only on
+        proper descendants of a block of the branch that got FAILED_POP; nothing cleared or lowered);
+      * C02_compare_canonical / C01: P = bootstrap + effects of the applied blocks after every call.
+    Outside the model: the real VBK/BTC trees below the command interface (abstracted to the reference-count
+    machine), finalization, altchain invalidate/revalidate; exercised on the implementation by the direct oracle. *)
 From Coq Require Import List ZArith NArith Bool Permutation.
-From VB Require Import Pop.SmDefs Pop.SmProofs Pop.SmWf Pop.SmCmp Pop.SmAll Pop.SmMarks Pop.SmAbort.
+From VB Require Import Pop.SmDefs Pop.SmProofs Pop.SmWf Pop.SmCmp Pop.SmAll Pop.SmMarks Pop.SmAbort Pop.SmCmpTotal.
 Local Open Scope Z_scope.
 
 Theorem C02_group_exec_atomic :
@@ -82,7 +81,7 @@ Theorem C02_setState_failure_unchanged :
 Proof. exact setState_failure_P_unchanged. Qed.
 Print Assumptions C02_setState_failure_unchanged.
 
-Theorem C02_compare_atomic_partial :
+Theorem C02_compare_atomic :
   forall base sc cr s c s' r,
     quiet s -> canon base s -> c_compare sc cr s c = Ok (s', r) ->
     quiet s' /\ (forall j, is_act (cores s') j <-> In j (chain s')) /\
@@ -90,7 +89,7 @@ Theorem C02_compare_atomic_partial :
                Permutation (pst _ _ s') (pst _ _ s)) /\
     (r < 0 -> c = Some (tip _ _ s')).
 Proof. exact compare_atomic. Qed.
-Print Assumptions C02_compare_atomic_partial.
+Print Assumptions C02_compare_atomic.
 
 Theorem C02_compare_canonical :
   forall base score crossed s c s' r,
@@ -113,3 +112,16 @@ Theorem C02_setState_never_aborts :
     reachable base s -> find ccmd (blocks _ _ s) to = Some bto -> exists s' ok, c_setState s to = Ok (s', ok).
 Proof. exact setState_total. Qed.
 Print Assumptions C02_setState_never_aborts.
+
+Theorem C02_compare_never_aborts :
+  forall base sc cr s cand,
+    reachable base s -> (forall c, cand = Some c -> exists bc, find ccmd (blocks _ _ s) c = Some bc) ->
+    exists s' r, c_compare sc cr s cand = Ok (s', r).
+Proof. exact compare_total. Qed.
+Print Assumptions C02_compare_never_aborts.
+
+Theorem C02_connect_never_aborts :
+  forall s i par pb dup gs,
+    find ccmd (blocks _ _ s) par = Some pb -> find ccmd (blocks _ _ s) i = None -> exists s', c_connect s i par dup gs = Ok s'.
+Proof. exact connect_total. Qed.
+Print Assumptions C02_connect_never_aborts.
